@@ -13,7 +13,8 @@ GOENV = dict(os.environ, PATH='/opt/veriftools/go1.26.8/bin:' + os.environ.get('
              GOFLAGS='-mod=mod', GOPROXY='off', GOSUMDB='off')
 
 ROOTS = './actions,./services,./filter,./faults,./internal/sqltypes,./parse,./grpc,./ent,./ent/schema'
-FOLLOW = ['go.6river.tech/mmmbbb/', 'google.golang.org/protobuf/types/known/durationpb.', 'google.golang.org/protobuf/types/known/timestamppb.']
+FOLLOW = ['go.6river.tech/mmmbbb/', 'google.golang.org/protobuf/types/known/durationpb', 'google.golang.org/protobuf/types/known/timestamppb',
+          'google.golang.org/protobuf/types/known/fieldmaskpb', '(*cloud.google.com/go/pubsub/apiv1/pubsubpb.']
 
 
 def repo_hash():
@@ -42,7 +43,7 @@ def load_program(extra=(), follow=(), key='main'):
     """export SSA from the current /repo tree (cached by content hash of its .go files)"""
     os.makedirs(CACHE, exist_ok=True)
     h = repo_hash()
-    tag = hashlib.sha256(('|'.join(sorted(extra)) + '#' + '|'.join(sorted(follow)) + '#' + ROOTS + '#' + open(os.path.join(VERIF, 'ssaexport', 'main.go')).read()).encode()).hexdigest()[:8]
+    tag = hashlib.sha256(('|'.join(sorted(extra)) + '#' + '|'.join(sorted(follow)) + '#' + ROOTS + '#' + '|'.join(FOLLOW) + '#' + open(os.path.join(VERIF, 'ssaexport', 'main.go')).read()).encode()).hexdigest()[:8]
     out = os.path.join(CACHE, 'ssa-%s-%s-%s.json' % (key, h, tag))
     if not os.path.exists(out):
         exe = ensure_exporter()
